@@ -746,6 +746,11 @@ func checkC09(w *World, r *Recorder) propInfo {
 		c15Compose(w, sub, sf)
 		remap(r, sub, map[string]string{"C15-H1": "C09-I8", "C15-H2": "C09-I8", "C15-H3": "C09-I8"})
 	}
+	// I9: decoding an encoding selects the implementation that produced it:
+	// the CBOR dispatcher looks at nothing but the profile key the encoder
+	// emits (C07-P1). A dispatcher that also consults other members can pick
+	// one implementation for a token and another for its re-encoding.
+	importRules(w, r, checkC07, "C09-I9", func(o *Oblig) bool { return o.Rule == "C07-P1" })
 	r.Floor("C09-I1", 1)
 	r.Floor("C09-I2", 2)
 	r.Floor("C09-I3", 26)
